@@ -40,6 +40,27 @@ def run_one(cfile, ob, timeout, mem_kb=8 * 1024 * 1024):
     return r2
 
 
+
+def run_group(cmd, env, timeout):
+    """run a command in its own process group; on timeout kill the whole group (CBMC, the portfolio wrapper and every solver it
+    started), so that no solver keeps a core after its verdict can no longer be used.  returns (stdout text, timed_out)"""
+    import signal
+    p = subprocess.Popen(cmd, stdout=subprocess.PIPE, stderr=subprocess.STDOUT, env=env, preexec_fn=os.setsid)
+    try:
+        out, _ = p.communicate(timeout=timeout)
+        return out.decode(errors='replace'), False
+    except subprocess.TimeoutExpired:
+        try:
+            os.killpg(os.getpgid(p.pid), signal.SIGKILL)
+        except Exception:
+            pass
+        try:
+            out, _ = p.communicate(timeout=10)
+        except Exception:
+            out = b''
+        return (out or b'').decode(errors='replace'), True
+
+
 def _run_one(cfile, ob, timeout, mem_kb, members):
     logf = cfile + '.pf.%d.log' % ob.index
     env = dict(os.environ)
@@ -49,11 +70,8 @@ def _run_one(cfile, ob, timeout, mem_kb, members):
     env['STV_PORTFOLIO'] = members
     cmd = cbmc_cmd(cfile, ob.index)
     t0 = time.time()
-    try:
-        p = subprocess.run(['bash', '-c', 'ulimit -v %d; exec "$@"' % mem_kb, 'x'] + cmd, stdout=subprocess.PIPE, stderr=subprocess.STDOUT,
-                           env=env, timeout=timeout + 60)
-        out = p.stdout.decode(errors='replace')
-    except subprocess.TimeoutExpired:
+    out, timed_out = run_group(['bash', '-c', 'ulimit -v %d; exec "$@"' % mem_kb, 'x'] + cmd, env, timeout + 360)
+    if timed_out:
         return Result(ob, UNDECIDED, time.time() - t0, detail='cbmc timeout')
     secs = time.time() - t0
     backend = ''
@@ -102,19 +120,14 @@ def run_batch(cfile, obs, timeout, mem_kb=8 * 1024 * 1024):
         cmd += ['--property', 'main.assertion.%d' % o.index]
     t0 = time.time()
     out = ''
-    try:
-        # one symbolic execution of the harness (up to a few minutes for the largest ones) + one solver query per obligation
-        p = subprocess.run(['bash', '-c', 'ulimit -v %d; exec "$@"' % mem_kb, 'x'] + cmd, stdout=subprocess.PIPE, stderr=subprocess.STDOUT,
-                           env=env, timeout=240 + len(obs) * min(timeout, 30))
-        out = p.stdout.decode(errors='replace')
-    except subprocess.TimeoutExpired as ex:
-        out = (ex.output or b'').decode(errors='replace')
+    # one symbolic execution of the harness (up to a few minutes for the largest ones) + one solver query per obligation
+    out, _ = run_group(['bash', '-c', 'ulimit -v %d; exec "$@"' % mem_kb, 'x'] + cmd, env, 240 + len(obs) * min(timeout, 30))
     secs = time.time() - t0
     res = []
     for o in obs:
         m = re.search(r'^\[main\.assertion\.%d\] .*: (SUCCESS|FAILURE|ERROR|UNKNOWN)\s*$' % o.index, out, re.M)
         if m and m.group(1) == 'SUCCESS':
-            res.append(Result(o, PROVED, secs / len(obs), 'z3new(batch)'))
+            res.append(Result(o, PROVED, secs / len(obs), 'portfolio(batch: z3int|z3uf|z3new|z3nl, first definite answer)'))
         else:
             res.append(run_one(cfile, o, timeout, mem_kb))
     return res
